@@ -14,8 +14,9 @@ class Gen(object):
     targets, delete, try, several with-items, attribute with-targets;  lazy: probability of a
     BoolOp / IfExp / lambda / comprehension / chained comparison in an expression position."""
 
-    def __init__(self, rnd, profile='model', lazy=0.0, maxdepth=3):
+    def __init__(self, rnd, profile='model', lazy=0.0, maxdepth=3, walrus=0.0):
         self.r = rnd
+        self.walrus = walrus     # probability of an assignment expression `(v := e)` in an operand position
         self.wide = (profile == 'wide')
         self.lazy = lazy
         self.maxdepth = maxdepth
@@ -35,6 +36,9 @@ class Gen(object):
             return self.atom()
         if self.lazy and r.random() < self.lazy:
             return self.lazy_expr(d)
+        if self.walrus and r.random() < self.walrus:
+            # evaluate the value, then bind: as call argument, binop / compare operand, subscript index, test ...
+            return '(%s := %s)' % (self.name(), self.expr(d - 1))
         k = r.random()
         e = lambda: self.expr(d - 1 if r.random() < 0.6 else 0)   # noqa
         if k < 0.30:
@@ -179,7 +183,8 @@ class Gen(object):
             return out
         if k < 0.90:
             # the test must be an event (a truth test of a V): event-free tests could loop forever
-            t = self.name() if r.random() < 0.8 else r.choice(['%s.%s' % (self.name(), r.choice(ATTRS)), '%s(%s)' % (self.name(), self.name()), '(not %s)' % self.name()])
+            t = self.name() if r.random() < 0.8 else r.choice(['%s.%s' % (self.name(), r.choice(ATTRS)), '%s(%s)' % (self.name(), self.name()), '(not %s)' % self.name(),
+                                                                  '(%s := %s(%s))' % (self.name(), self.name(), self.name())])
             return [ind + 'while %s:' % t] + self.block(depth - 1, r.randint(1, 2), ind + '  ', True)
         if k < 0.96 or not self.wide:
             items = []
@@ -199,9 +204,18 @@ class Gen(object):
         return out
 
     def program(self, nstmts=None, depth=2):
-        n = nstmts or self.r.randint(1, 4)
-        body = self.block(depth, n, '  ', False)
-        return 'def fn(%s):\n%s\n' % (', '.join(PARAMS), '\n'.join(body))
+        while True:
+            n = nstmts or self.r.randint(1, 4)
+            body = self.block(depth, n, '  ', False)
+            src = 'def fn(%s):\n%s\n' % (', '.join(PARAMS), '\n'.join(body))
+            try:
+                import warnings
+                with warnings.catch_warnings():
+                    warnings.simplefilter('ignore')
+                    compile(src, '<gen>', 'exec')
+                return src
+            except SyntaxError:
+                continue       # e.g. an assignment expression in a comprehension iterable
 
 
 def rename_to_gensym(src, rnd):
@@ -257,6 +271,13 @@ class SpecConfig(object):
                 return False
             return bool(act(parent, field, child))
         return False
+
+
+def spec_trivial(node):
+    """Reference reading of `trivial` for operand positions (documentation of anf.transform: "variable
+    references are never replaced"; plus the Ellipsis literal): independent of the implementation's table."""
+    return isinstance(node, ast.Name) or (isinstance(node, ast.Constant) and node.value is Ellipsis) \
+        or not isinstance(node, ast.AST)
 
 
 def _field_names():
@@ -367,6 +388,8 @@ class Mirror(object):
                 # the unpacking itself happens in place, right after the operand is evaluated
                 infos.append((False, False, False))
                 star_after = True
+        if isinstance(n, ast.NamedExpr):
+            self.coq_guard = False       # binds a variable: outside the semantics of the Coq theorem
         generic_only = isinstance(n, (ast.NamedExpr, ast.Slice, ast.Starred)) or \
             (isinstance(n, (ast.Tuple, ast.List)) and not isinstance(n.ctx, ast.Load))
         if generic_only:
@@ -486,3 +509,33 @@ class Mirror(object):
                     # __enter__ of an earlier item happens before the next context expression
                 if any(not q or h or nm for q, h, nm in infos[1:]):
                     self.reasons.add('anf-sibling-order')
+
+
+def read_before_walrus(fn):
+    """names that some statement reads (left in place: names are atoms for the transformer) at a source
+    position before an assignment expression of the same statement rebinds them, e.g. `y + (y := a())`:
+    the hoisted `tmp = (y := a())` runs before the read"""
+    out = set()
+
+    def own_exprs(s):
+        for f in s._fields:
+            v = getattr(s, f, None)
+            for c in (v if isinstance(v, list) else [v]):
+                if isinstance(c, ast.expr):
+                    yield c
+                elif isinstance(c, ast.withitem):
+                    yield c.context_expr
+    for s in ast.walk(fn):
+        if not isinstance(s, ast.stmt):
+            continue
+        loads, binds = [], []
+        for e in own_exprs(s):
+            for n in ast.walk(e):
+                if isinstance(n, ast.NamedExpr):
+                    binds.append((n.target.id, (n.lineno, n.col_offset)))
+                elif isinstance(n, ast.Name) and isinstance(n.ctx, ast.Load):
+                    loads.append((n.id, (n.lineno, n.col_offset)))
+        for x, pb in binds:
+            if any(y == x and pl < pb for y, pl in loads):
+                out.add(x)
+    return out
